@@ -44,7 +44,7 @@ m = {"version": 1, "setup_cmd": "./setup.sh",
      "engines": [{"name": "tlc", "path": "/verif/spec", "serves_properties": [c["property_id"] for c in checks],
                   "kind_free_text": "explicit TLA+ specification (spec/*.tla) checked with TLC: MC_* exhaustive small-constant configs, Gen_* TLC-generated cases replayed on the real code, Trace_* validation of traces recorded from the real code (harness/)"}],
      "checks": checks,
-     "notes": "Oracle is always TLA+ evaluated by TLC; Python (check, tools/) orchestrates; Rust (harness/) drives and records. Fixed defects: KNOWN_FINDINGS.json. Seeded changes: seeded/.",
+     "notes": "Oracle is always TLA+ evaluated by TLC; Python (check, tools/) orchestrates; Rust (harness/) drives and records. Known findings (listed, printed as KNOWN-FINDING, exit 0) and fixed defects: KNOWN_FINDINGS.json. Seeded changes: seeded/.",
      "not_applicable": [{"property_id": p["id"], "reason": "check not yet built in this revision (work in progress; planned per DESIGN.md section 5)"}
                         for p in props if p["id"] not in CLAIMS]}
 json.dump(m, open(os.path.join(V, "MANIFEST.json"), "w"), indent=1)
